@@ -28,7 +28,10 @@ class PROP(Prop):
     level = "proof"
     title = "static dependency obligations: gateway_base (the shipped source) names only the standard library and itself; every bootstrap line only uses names defined by the shipped text; shipped modules import only stdlib at run time"
     design_ref = "DESIGN.md section 4, C15"
-    targets: list[str] = []
+    # the command lines that start a (possibly remote) interpreter: python= reaches the shell verbatim, the bootstrap line follows -c (world cmd, deductive)
+    targets: list[str] = ["cmd::execnet.gateway_io:ssh_args", "cmd::execnet.gateway_io:vagrant_ssh_args", "cmd::execnet.gateway_io:popen_args"]
+    extra_worlds = {"cmd": lambda w: __import__("contracts.xspec", fromlist=["x"]).declare_command_lines(w)}
+
     assumptions = [
         "the standard-library module list of this interpreter (sys.stdlib_module_names) stands for the target interpreters",
         "names are resolved with the symtable of the real source (Python's own scoping): a name a scope leaves to the module level must be bound at top level of the shipped text, by an earlier bootstrap line, by the socket server's namespace, or be a builtin",
